@@ -39,6 +39,7 @@ func (c *Ctx) connectFlagRefusals() {
 		return f&1 != 0 || (f&4 == 0 && f&0x38 != 0) || f&0x18 == 0x18 || (f&0x80 == 0 && f&0x40 != 0)
 	}
 	nIf := 0
+	refused := map[uint64]bool{}
 	for _, host := range hosts {
 		for _, b := range host.Blocks {
 			iff, ok := b.Instrs[len(b.Instrs)-1].(*ssa.If)
@@ -60,15 +61,16 @@ func (c *Ctx) connectFlagRefusals() {
 				nIf++
 				var bad []string
 				for f := uint64(0); f < 256; f++ {
-					if malformed(f) {
-						continue
-					}
 					v, _, _ := foldFlags(iff.Cond, f, nil, 0)
 					if (v != 0) != (idx == 0) {
 						continue
 					}
 					// the branch is only reached when the flag-only tests above it let this value through
 					if !reachesWithFlags(b, f) {
+						continue
+					}
+					refused[f] = true
+					if malformed(f) {
 						continue
 					}
 					if len(bad) < 4 {
@@ -80,6 +82,21 @@ func (c *Ctx) connectFlagRefusals() {
 					"the decoder refuses CONNECT packets whose connect-flags byte is well formed (e.g. "+joinStr(bad, ", ")+"): a client that the specification allows is turned away")
 			}
 		}
+	}
+	// the other direction: every flag byte the specification calls malformed is refused by one of those branches
+	if c.R.Property == "C11" {
+		var miss []string
+		nm := 0
+		for f := uint64(0); f < 256; f++ {
+			if malformed(f) && !refused[f] {
+				nm++
+				if len(miss) < 4 {
+					miss = append(miss, fmt.Sprintf("0x%02x", f))
+				}
+			}
+		}
+		c.R.Check(nm == 0, "T12-flag-refusals-within-spec", "decodeMessage:refuses-every-malformed-flag-byte", c.P.Pos(fn.Pos()), "all 256 values: malformed per section 3.1.2 implies refused",
+			fmt.Sprintf("the CONNECT decoder accepts %d flag bytes that MQTT 3.1.1 section 3.1.2 calls malformed (e.g. %s: password flag without user-name flag [MQTT-3.1.2-22], a set reserved bit, will QoS / retain without will flag, will QoS 3): a first packet that is not a well-formed CONNECT is answered with CONNACK 0 and gets a session", nm, joinStr(miss, ", ")))
 	}
 	c.R.Count("flag-only refusing branches of the CONNECT decoder", nIf)
 	c.R.Floor("flag-only refusing branches of the CONNECT decoder", nIf, 2)
